@@ -114,27 +114,40 @@ func TestVerifC16Core(t *testing.T) {
 			var got []byte
 			var same bool
 			var err error
-			if isReq {
-				var h gorpc.Request
-				if err = rcv.ReadRequestHeader(&h); err == nil {
-					if m.kind == 0 {
-						b := &CreateTractReq{B: buf}
-						err = rcv.ReadRequestBody(b)
-						got, same = b.B, b.TSID == m.tsid && b.ID == m.tid && b.Off == m.off && b.Pri == m.pri
-					} else {
-						b := &WriteReq{B: buf}
-						err = rcv.ReadRequestBody(b)
-						got, same = b.B, b.ID == m.tid && b.Version == m.ver && b.Off == m.off && b.Pri == m.pri && b.ReqID == m.reqID
+			panicked := false
+			func() {
+				defer func() {
+					if p := recover(); p != nil {
+						panicked = true
+						det["panic"] = fmt.Sprint(p)
+						report("core/recv-panic", "production message type: the receiving codec panicked", det)
 					}
-					same = same && h.Seq == m.seq && h.ServiceMethod == "TSSrvHandler.X"
+				}()
+				if isReq {
+					var h gorpc.Request
+					if err = rcv.ReadRequestHeader(&h); err == nil {
+						if m.kind == 0 {
+							b := &CreateTractReq{B: buf}
+							err = rcv.ReadRequestBody(b)
+							got, same = b.B, b.TSID == m.tsid && b.ID == m.tid && b.Off == m.off && b.Pri == m.pri
+						} else {
+							b := &WriteReq{B: buf}
+							err = rcv.ReadRequestBody(b)
+							got, same = b.B, b.ID == m.tid && b.Version == m.ver && b.Off == m.off && b.Pri == m.pri && b.ReqID == m.reqID
+						}
+						same = same && h.Seq == m.seq && h.ServiceMethod == "TSSrvHandler.X"
+					}
+				} else {
+					var h gorpc.Response
+					if err = rcv.ReadResponseHeader(&h); err == nil {
+						b := &ReadReply{B: buf}
+						err = rcv.ReadResponseBody(b)
+						got, same = b.B, b.Err == m.errc && h.Seq == m.seq
+					}
 				}
-			} else {
-				var h gorpc.Response
-				if err = rcv.ReadResponseHeader(&h); err == nil {
-					b := &ReadReply{B: buf}
-					err = rcv.ReadResponseBody(b)
-					got, same = b.B, b.Err == m.errc && h.Seq == m.seq
-				}
+			}()
+			if panicked {
+				break
 			}
 			vw.Stat(fmt.Sprintf("core.kind%d", m.kind), 1)
 			if err != nil {
